@@ -46,6 +46,10 @@ def _crate_dir(name):
 
 
 def build():
+    """Build the driver with the hooks of /verif/hooks compiled into indicatif.  When that fails (a private
+    signature the hooks use has changed) build it without them: the routines that need only the public API stay
+    available, the others answer "unknown routine"."""
+    global BIN
     if _built["ok"] is not None:
         return _built["ok"]
     env = dict(os.environ, CARGO_NET_OFFLINE="true", RUSTFLAGS="--cfg indicatif_verif")
@@ -53,6 +57,16 @@ def build():
                        cwd=_crate_dir("replay"), env=env, capture_output=True, text=True)
     _built["ok"] = p.returncode == 0
     _built["log"] = (p.stdout + p.stderr)[-3000:]
+    if not _built["ok"]:
+        env = dict(os.environ, CARGO_NET_OFFLINE="true")
+        env.pop("RUSTFLAGS", None)
+        p2 = subprocess.run(["cargo", "build", "--offline", "--release", "--no-default-features", "--target-dir", TARGET + "-nohooks"],
+                            cwd=_crate_dir("replay"), env=env, capture_output=True, text=True)
+        if p2.returncode == 0:
+            BIN = os.path.join(TARGET + "-nohooks", "release", "replay")
+            _built["ok"] = True
+            _built["degraded"] = True
+            _built["log"] = "hooks do not compile against the current tree; driver built without them: " + _built["log"][-1200:]
     return _built["ok"]
 
 
@@ -85,13 +99,15 @@ def run_routine(routine, args=(), timeout=300):
 
 
 def _run_routine(routine, args=(), timeout=300):
-    binary = BIN
+    binary = None
     if routine.startswith("async_"):
         if not build_async():
             return {"found": False, "error": "replay-async driver does not build against the current tree", "log": _abuilt["log"]}
         binary = ABIN
     elif not build():
         return {"found": False, "error": "replay driver does not build against the current tree", "log": _built["log"]}
+    if binary is None:
+        binary = BIN
     try:
         p = subprocess.run([binary, routine] + list(args), capture_output=True, text=True, timeout=timeout)
     except subprocess.TimeoutExpired:
